@@ -596,18 +596,32 @@ pub async fn run_case(backend: &str, seed: u64, rep: &mut Report, ops_out: &mut 
             let target: Option<Vec<u8>> = if !cur.is_empty() && rng.chance(5, 6) { Some(cur[rng.below(cur.len() as u64) as usize].bytes.clone()) } else if rng.chance(1, 2) { None } else { Some(vec![8]) };
             let base_after: Vec<RecD> = match &target { Some(t) => match cur.iter().rposition(|x| &x.bytes == t) { Some(p) => cur[..=p].to_vec(), None => cur.clone() }, None => cur.clone() };
             let (cpd, ck) = if rng.chance(1, 2) { (CpD::Head(base_after.iter().map(|r| r.bytes.clone()).collect()), "matching-rewound") } else { gen_cp(&mut rng, &cur, &others) };
-            let rs = gen_recs(&mut rng, &mut clock, 3);
+            let mut rs = gen_recs(&mut rng, &mut clock, 3);
+            // half of the patches carry the records the rewind removes (what a client's merged patch does)
+            if rng.chance(1, 2) { let mut carried: Vec<RecD> = cur[base_after.len()..].to_vec(); carried.extend(rs); rs = carried; }
             let Some(cp) = cpd.real() else { continue };
             let real: Vec<EventRecord> = rs.iter().map(|r| r.real()).collect();
             let mut removed: Vec<EventRecord> = vec![];
             let mut early: Option<String> = None;
+            let mut stale = false;
             if let Some(t) = &target {
                 let c = CommitHash(sha256(t));
-                match with_log!(&mut case.logs[o], l => l.rewind(&c).await.map_err(|e| e.to_string())) {
-                    Ok(r) => removed = r,
+                // the guard of server_helpers::event_patch: every record the rewind would remove is carried by the patch
+                match with_log!(&case.logs[o], l => l.diff_records(Some(&c)).await.map_err(|e| e.to_string())) {
                     Err(e) => early = Some(err_kind(&e)),
+                    Ok(would) => if would.iter().any(|r| !real.iter().any(|x| x.commit() == r.commit())) {
+                        stale = true;
+                        early = Some(match with_log!(&case.logs[o], l => l.tree().head().map_err(|e| e.to_string())) { Ok(h) => format!("conflict:{}:-", show_proof(&h)), Err(e) => err_kind(&e) });
+                    },
+                }
+                if early.is_none() {
+                    match with_log!(&mut case.logs[o], l => l.rewind(&c).await.map_err(|e| e.to_string())) {
+                        Ok(r) => removed = r,
+                        Err(e) => early = Some(err_kind(&e)),
+                    }
                 }
             }
+            if stale { rep.count("op:event_patch:stale-rewind-refused"); }
             let out = if let Some(e) = early { refused_unchanged(&case, rep, backend, &script, "event-patch", &snap).await; e } else {
                 let r = with_log!(&mut case.logs[o], l => l.patch_checked(&cp, &Patch::new(real)).await.map_err(|e| e.to_string()));
                 if let Ok(CheckedPatch::Conflict { .. }) = &r {
